@@ -478,6 +478,45 @@ def _server_shape() -> list[tuple[str, str]]:
     return out
 
 
+def _schema_cache_shape() -> tuple[str, str]:
+    """How `_ArrowSchemaDescriptor.__get__` (vgi_rpc/utils.py) looks the cached schema up, and where it stores it.
+
+    `if cache_attr in owner.__dict__:`  -> "ownDict" (only the class's own dict: a subclass never sees its parent's entry)
+    `getattr(owner, cache_attr, ...)` used for the hit test -> "mro" (walks the class hierarchy)
+    """
+    tree = ast.parse((REPO / "vgi_rpc/utils.py").read_text())
+    get = None
+    for node in ast.walk(tree):
+        if isinstance(node, ast.ClassDef) and node.name == "_ArrowSchemaDescriptor":
+            for f in node.body:
+                if isinstance(f, ast.FunctionDef) and f.name == "__get__":
+                    get = f
+    if get is None:
+        raise Unrecognised("_ArrowSchemaDescriptor.__get__ not found")
+    params = [a.arg for a in get.args.args]
+    if params != ["self", "instance", "owner"]:
+        raise Unrecognised(f"_ArrowSchemaDescriptor.__get__ signature {params}")
+    body = [st for st in get.body if not _is_docstring(st)]
+    first_if = next((st for st in body if isinstance(st, ast.If)), None)
+    if first_if is None or not any(isinstance(x, ast.Return) for x in first_if.body):
+        raise Unrecognised("_ArrowSchemaDescriptor.__get__: no cache-hit branch")
+    test = ast.unparse(first_if.test)
+    pre = [ast.unparse(st) for st in body[: body.index(first_if)]]
+    if test == "cache_attr in owner.__dict__":
+        mode = "ownDict"
+    elif any("getattr(owner, cache_attr" in x for x in pre) or "getattr(owner, cache_attr" in test or "hasattr(owner, cache_attr" in test:
+        mode = "mro"
+    else:
+        raise Unrecognised(f"_ArrowSchemaDescriptor.__get__: unrecognised cache test {test!r}")
+    stores = [ast.unparse(n) for n in ast.walk(get) if isinstance(n, ast.Call) and ast.unparse(n.func) == "setattr"]
+    if stores != ["setattr(owner, cache_attr, schema)"]:
+        raise Unrecognised(f"_ArrowSchemaDescriptor.__get__: cache store {stores}")
+    gen = [ast.unparse(st.value) for st in body if isinstance(st, ast.Assign) and ast.unparse(st.targets[0]) == "schema"]
+    if gen != ["self._generate_schema(owner)"]:
+        raise Unrecognised(f"_ArrowSchemaDescriptor.__get__: schema generation {gen}")
+    return mode, stores[0]
+
+
 def _pairs(name: str, doc: str, pairs: list[tuple[str, str]]) -> str:
     body = ",\n".join(f"  ({_lean_string(k)}, {_lean_string(v)})" for k, v in pairs)
     return f"/-- {doc} -/\ndef {name} : List (String × String) := [\n{body}\n]\n"
@@ -496,6 +535,7 @@ def emit() -> dict[str, str]:
     build_shape, md_shape = _build_shape(tree)
     parse_shape = _parse_shape(tree)
     server_shape = _server_shape()
+    cache_mode, cache_store = _schema_cache_shape()
     fields = [(f.name, str(f.type), bool(f.nullable)) for f in mod._DESCRIBE_FIELDS]
     fields_txt = ", ".join(f'("{n}", "{t}", {str(nl).lower()})' for n, t, nl in fields)
     mt = {m.name: m.value for m in MethodType}
@@ -566,6 +606,13 @@ def rowOps : List ROp := [
 def forbiddenProtocolName : List Nat := {prog["forb_protocol"]}
 /-- code points `_require_unambiguous_name` rejects in every method name ([] = no guard in the source) -/
 def forbiddenMethodName : List Nat := {prog["forb_method"]}
+
+/-- how `_ArrowSchemaDescriptor.__get__` finds a cached `ARROW_SCHEMA`: in the class's own `__dict__`, or through the MRO -/
+inductive CacheLookup where | ownDict | mro
+deriving Repr, DecidableEq
+def schemaCacheLookup : CacheLookup := .{cache_mode}
+/-- on a miss the generated schema (`self._generate_schema(owner)`) is stored on the class itself -/
+def schemaCacheStore : String := {_lean_string(cache_store)}
 
 {_pairs("buildShape", "`build_describe_batch`: row order, column <- expression appended per method, what is hashed, what is returned", build_shape)}
 {_pairs("metadataShape", "`build_describe_batch`: the custom-metadata dict, in insertion order", md_shape)}
